@@ -253,6 +253,20 @@ def unit_iter(shape):
     return list(np.ndindex(*shape)) if len(shape) else [()]
 
 
+LIBSPELL = {
+    "poincare": ["poincare", "Poincare", hyperbolic.Model.POINCARE, "POINCARE"],
+    "halfspace": ["halfspace", "halfplane", hyperbolic.Model.HALFSPACE, "HalfPlane",
+                  hyperbolic.Model.HALFPLANE],
+}
+
+
+def lib_model(case):
+    """the model of the case as the library is told: its canonical name, one of the documented
+    aliases (in any case), or the enum member"""
+    opts = LIBSPELL[case["model"]]
+    return opts[(len(case["units"]) + len(case["shape"]) + case.get("ctor", 0)) % len(opts)]
+
+
 def to_model(k, model):
     """harness map Klein -> model for interior or ideal points (1-d array)"""
     k = np.asarray(k, dtype=float)
@@ -400,7 +414,8 @@ def body_circle_orthogonal(case, ctx):
     label_common(ctx, case, ["model=" + model, "obj=" + case["obj"]])
     if not_origin(case["units"]):
         ctx.label("not-origin")
-    centre, radius = obj.sphere_parameters(model)
+    centre, radius = obj.sphere_parameters(lib_model(case))
+    ctx.label("model-spelled=%s" % (lib_model(case),))
     centre, radius = np.array(centre), np.array(radius)
     ctx.check(centre.shape == shape + (n,), "centre shape", got=centre.shape)
     ctx.check(radius.shape == shape, "radius shape", got=radius.shape)
@@ -415,7 +430,7 @@ def body_circle_orthogonal(case, ctx):
               "are what they were")
     if n == 2:
         # positional and keyword arguments mean what the signature says: (degrees, model)
-        cp_kw = obj.circle_parameters(degrees=False, model=model)
+        cp_kw = obj.circle_parameters(degrees=False, model=lib_model(case))
         cp_pos = obj.circle_parameters(False, model)
         for a_, b_ in zip(cp_kw, cp_pos):
             ctx.check(np.array_equal(np.array(a_), np.array(b_), equal_nan=True),
@@ -529,7 +544,7 @@ def body_arc(case, ctx):
         ctx.label("not-origin")
     geo = seg.geodesic()
     for tag, obj in (("segment", seg), ("geodesic", geo)):
-        centre, radius, thetas = obj.circle_parameters(degrees=False, model=model)
+        centre, radius, thetas = obj.circle_parameters(degrees=False, model=lib_model(case))
         centre, radius, thetas = np.array(centre), np.array(radius), np.array(thetas)
         ctx.check(thetas.shape == shape + (2,), "thetas shape", got=thetas.shape)
         c2, r2 = obj.sphere_parameters(model)
